@@ -636,6 +636,7 @@ void post_checks(Db& db, const program& p, exec_state& x) {
     barrier();
     if (g.has_value()) present.push_back(k);
   }
+#ifdef UNODB_DETAIL_WITH_STATS
   {
     const auto t = vm::ref_trie::build(present, false);
     const auto counts = db.get_node_counts();
@@ -662,6 +663,7 @@ void post_checks(Db& db, const program& p, exec_state& x) {
       return violate("C10", "olc-concurrent/memory-use", "after a concurrent phase and drain, allocator bytes differ from reported memory use",
                      json::object().set("allocator", static_cast<u64>(tracked)).set("reported", static_cast<u64>(db.get_current_memory_use())));
   }
+#endif  // UNODB_DETAIL_WITH_STATS (the no-statistics builds of C16 skip the C10 part)
   // C14 sweep: every key, full scans, insert+remove probes next to every universe key
   std::size_t seen = 0;
   {
